@@ -110,7 +110,8 @@ PSeqs(z) == { es \in UNION { [1..n -> PItems] : n \in 1..(IF Tier = "quick" THEN
             \cup { <<PW("a"), PD>> \o [i \in 1..n |-> PW("ab")] : n \in {15, 17, 20} }
 PoeticTrees(z) == { << <<SPNum(0, X, PLit(es))>> >> : es \in PSeqs(z) }
              \cup { << <<SRock(0, X, <<PLit(es)>>)>> >> : es \in { q \in PSeqs(z) : Len(q) <= 2 } }
-             \cup { << <<SPStr(0, X, t), Say(X)>> >> : t \in { "hello", " lead", "trail  ", "a, b. c! (d) \"e\" 'f' 5 is nothing", "~t~ \t x", "", "it's a \"quoted (thing)\" here" } }
+             \cup { << <<SPStr(0, X, t), Say(X)>> >> : t \in { "hello", " lead", "trail  ", "a, b. c! (d) \"e\" 'f' 5 is nothing", "~t~ \t x", "", "it's a \"quoted (thing)\" here",
+                                                                 "the path is \"C:\\\"", "shrug (\\)", "a\\b \\", "\\\"x\\\" (\\) end" } }
 
 Trees(z) ==
   CASE Family = "poetic" -> PoeticTrees(z)
